@@ -12,7 +12,8 @@ def swarm(rng):
     cfg = c02.swarm(rng)
     cfg.update({"n_spaces": rng.choice([2, 3]), "n_cells": rng.choice([3, 4, 5]), "n_refs": rng.choice([1, 2]),
                 "n_steps": rng.choice([15, 25, 40]), "p_sformula": 0.0, "p_objref": 0.0, "p_uncached": rng.choice([0.0, 0.2]),
-                "recalc": rng.random() < 0.5, "p_selfrec": 0.5, "p_scalar": 0.2, "items": False})
+                "recalc": rng.random() < 0.5, "p_selfrec": 0.5, "p_scalar": 0.2, "items": False,
+                "p_recalc_fault": rng.choice([0.0, 0.3, 0.6])})
     return cfg
 
 
@@ -28,11 +29,14 @@ class C06(PropBase):
             "recalculation option; after every step dict(cells) and is_input of EVERY cells must equal the held map the "
             "independent evaluator keeps by the contract (an edit of x removes x's transitive dependents and nothing "
             "else; inputs survive clear() and reference changes; with recalculation on, the discarded leaves are "
-            "recomputed at once), and every evaluation's probe log must equal the evaluator's (kept values are not "
+            "recomputed at once - also when that recalculation is made to fail at a seeded probe point: the assigned value stays "
+            "an input, whatever was recomputed before the failure is right), and every evaluation's probe log must equal the "
+            "evaluator's (kept values are not "
             "recomputed); non-trivial = an edit discarded at least one dependent while at least one other held value "
             "stayed; distinct = distinct event-log digest")
     tiers = {"quick": {"budget_s": 45, "timeout_s": 60}, "thorough": {"budget_s": 900, "timeout_s": 120}}
-    reach_probes = ["reach/edits_with_dependents_and_survivors", "reach/recalc_edits", "reach/input_survived_clear"]
+    reach_probes = ["reach/edits_with_dependents_and_survivors", "reach/recalc_edits", "reach/input_survived_clear",
+                    "reach/recalculations_failed"]
     assumptions = ["after a reference change only 'inputs survive and values are right' is asserted (the statement does "
                    "not promise exactness there); the model is then brought to inputs-only on both sides",
                    "static spaces only (ItemSpaces are C07's)"]
@@ -56,6 +60,8 @@ class C06(PropBase):
                 op = mach.next_op(getattr(self, "weights", None) or WEIGHTS) if mach.sched.random() > 0.05 else {"op": "set_recalc", "v": mach.sched.random() < 0.5}
                 if op["op"] in ("clear_items",):
                     continue
+                if op["op"] == "set_value" and self.recalc and mach.frng.random() < cfg.get("p_recalc_fault", 0.0):
+                    self.attach_recalc_fault(op)
                 steps.append(op)
                 self.step(op)
             ctx.steps = steps
@@ -130,6 +136,9 @@ class C06(PropBase):
                 pass
             self.compare_held(op, inputs_only=ins0)
             return
+        if k == "set_value" and op.get("fault"):
+            self.faulted_assignment(op)
+            return
         if k in ("set_value", "clear_at", "clear", "clear_all", "space_clear_all", "space_clear_cells", "model_clear_all"):
             before = dict(ev.memo)
             out = mach.do(op, record=False)
@@ -142,6 +151,80 @@ class C06(PropBase):
             self.mirror(op, before)
             self.compare_held(op)
             return
+
+    def _assignment_target(self, op):
+        mach = self.mach
+        s = mach.ref.space(op["space"]) if op.get("space") else None
+        if s is None or op["name"] not in gen.visible_cells(s):
+            return None
+        c = gen.visible_cells(s)[op["name"]][1]
+        key = tuple(gen.bound_key(c.formula["params"] if c.formula else [], op["args"]))
+        return (s.path(), op["name"], key)
+
+    def attach_recalc_fault(self, op):
+        """Choose a probe site of the recalculation this assignment will trigger and make it the failure point."""
+        mach, ev = self.mach, self.ev
+        el = self._assignment_target(op)
+        if el is None or el not in ev.memo:
+            return
+        ev2 = grammar.Evaluator(mach.ref)
+        ev2.memo = dict(ev.memo); ev2.inputs = set(ev.inputs)
+        ev2.edges = {k: set(v) for k, v in ev.edges.items()}
+        deps = ev2.dependents(el)
+        leaves = [d for d in deps if not ev2.dependents(d)]
+        if not leaves:
+            return
+        ev2.clear_with_dependents(el)
+        ev2.memo[el] = op["value"]; ev2.inputs.add(el); ev2.edges.setdefault(el, set())
+        for d in sorted(leaves, key=repr):
+            if ev2.top_call(el_loc(d), d[1], list(d[2]))[0] == "unknown":
+                return
+        if not ev2.log:
+            return
+        site = ev2.log[mach.frng.randrange(len(ev2.log))]
+        op["fault"] = {"faults": [{"site": [site[0], site[1], site[2], list(site[3])], "occ": 0,
+                                   "exc": mach.frng.choice(["ValueError", "KeyError", "ZeroDivisionError"])}]}
+
+    def faulted_assignment(self, op):
+        """An assignment made with recalculation on whose recalculation fails: the assigned value is an input all the same,
+        the dependents are discarded, whatever was recomputed before the failure is right, nothing else changed."""
+        mach, ev, ctx = self.mach, self.ev, self.ctx
+        el = self._assignment_target(op)
+        plan = probe.FaultPlan(op["fault"].get("faults", ()), ())
+        probe.arm(plan)
+        try:
+            out = mach.do(op, record=False)
+        finally:
+            probe.arm(None)
+        mach.events.append("faulted set_value %s fired=%d" % (out["st"], len(plan.fired)))
+        if out["st"] == "skip":
+            return
+        if not plan.fired:
+            # the failure point was not reached: an ordinary assignment
+            if out["st"] == "ok":
+                self.mirror(dict(op, fault=None), dict(ev.memo))
+            self.compare_held(op)
+            return
+        ctx.count("recalculations_failed", 1, "reach")
+        if el is None:
+            return
+        ev.clear_with_dependents(el)
+        ev.memo[el] = op["value"]
+        ev.inputs.add(el)
+        ev.edges.setdefault(el, set())
+        # what modelx recomputed before the failure must be what the evaluator computes
+        for s in mach.ref.all_spaces():
+            for n in gen.visible_cells(s):
+                for k in mach.world.held(s.path(), n):
+                    x = (s.path(), n, tuple(k))
+                    if x not in ev.memo:
+                        r = ev.top_call(el_loc(x), n, list(k))
+                        if r[0] == "unknown":
+                            raise_giveup(self)
+        sysm = mx.core.mxsys
+        if sysm.callstack or sysm.executor.is_executing:
+            raise Violation("C06/left-marked-executing/after-failed-recalculation", {"after": strip(op)})
+        self.compare_held(dict(op, op="set_value_failed_recalc"))
 
     def mirror(self, op, before):
         mach, ev, ctx = self.mach, self.ev, self.ctx
